@@ -344,6 +344,58 @@ def liveness_check(consts, outdir, tag, workers=8, timeout=2400):
     return dict(ok=ok, states=int(m.group(2)) if m else 0, transitions=int(m.group(1)) if m else 0, out=out)
 
 
+def stage2_suite_traces(outdir, timeout=2400):
+    """Stage 2: run the repository's OWN test suite (one process per test, real parking_lot locks) with the
+    cfg-gated recorder src/verif_hook.rs and validate every raw lock operation with spec/TraceRaw.tla.
+    -> dict(viol=[(p, s, test index, line)], tests, events, skipped=reason|None)"""
+    os.makedirs(outdir, exist_ok=True)
+    if not os.path.exists(os.path.join(REPO, "src", "verif_hook.rs")):
+        return dict(viol=[], tests=0, events=0, skipped="hook src/verif_hook.rs not present in /repo")
+    if subprocess.run(["cargo", "nextest", "--version"], stdout=subprocess.PIPE, stderr=subprocess.PIPE).returncode != 0:
+        return dict(viol=[], tests=0, events=0, skipped="cargo-nextest not available (one process per test is needed)")
+    rawdir = os.path.join(outdir, "raw")
+    shutil.rmtree(rawdir, ignore_errors=True)
+    os.makedirs(rawdir)
+    env = dict(os.environ, RUSTFLAGS="--cfg happylock_verif", HAPPYLOCK_VERIF_TRACE=os.path.join(rawdir, "t"),
+               CARGO_TARGET_DIR=os.path.join(VERIF, "out", "stage2-target"), CARGO_NET_OFFLINE="true")
+    try:
+        p = subprocess.run(["cargo", "nextest", "run", "--workspace", "--offline", "--no-fail-fast", "--test-threads", "8"],
+                           cwd=REPO, env=env, stdout=subprocess.PIPE, stderr=subprocess.STDOUT, text=True, timeout=timeout)
+    except subprocess.TimeoutExpired:
+        raise ToolError("stage 2: the repository's test suite timed out under the hook")
+    # (a failing repository test is not our business here: the traces of whatever ran are validated)
+    files = sorted(os.listdir(rawdir))
+    trace = os.path.join(outdir, "raw.ndjson")
+    events = 0
+    with open(trace, "w") as out:
+        for fn in files:
+            ids, tids = {}, {}
+            out.write('{"e":"new"}\n')
+            for line in open(os.path.join(rawdir, fn)):
+                try:
+                    j = json.loads(line)
+                except ValueError:
+                    continue
+                j["l"] = ids.setdefault(j["l"], len(ids) + 1)
+                j["t"] = tids.setdefault(j["t"], len(tids) + 1)
+                out.write(json.dumps(j) + "\n")
+                events += 1
+    if events == 0:
+        return dict(viol=[], tests=len(files), events=0, skipped="the hooked suite produced no events (build output: %s)" % p.stdout[-400:])
+    rc, tvout = run_tlc("TraceRaw.tla", os.path.join(SPEC, "TraceRaw.cfg"), outdir, "tvraw", workers=1, xmx="3g",
+                        timeout=1800, env_extra={"TRACE": trace},
+                        java_opts="-Xss1g -Dtlc2.tool.queue.IStateQueue=StateDeque")
+    t = open(tvout, errors="replace").read()
+    if rc != 0 or "No error has been found" not in t:
+        raise ToolError("stage 2: trace validation failed: see " + tvout)
+    viol = []
+    for l in t.splitlines():
+        if l.startswith('"VIOL '):
+            j = json.loads(json.loads(l)[5:])
+            viol.append((j["p"], j["s"], j["x"], j["ln"]))
+    return dict(viol=viol, tests=len(files), events=events, skipped=None, trace=trace)
+
+
 def known_mc_sigs():
     """signatures "<prop>|<sig>" of the known findings: the model (which reproduces the code
     as it is) is allowed to exhibit exactly these"""
